@@ -12,6 +12,11 @@ From CrabV Require Import Ir.Syntax Dom.Zone.
 Import ListNotations.
 Local Open Scope Z_scope.
 
+Arguments tab : simpl never.
+Arguments mget : simpl never.
+Arguments pairs : simpl never.
+Arguments node : simpl never.
+
 (* ------------------------------------------------------------------ weights *)
 Definition wle (a b : wt) : Prop :=
   match a, b with
@@ -416,4 +421,470 @@ Proof.
   unfold add_edge_m in *. rewrite E in *. simpl in *.
   destruct (mwf_inhabited _ _ W1) as [s G]. exists s. apply G1 in G. destruct G as [G H].
   split; auto. lia.
+Qed.
+
+(* ------------------------------------------------------------------ the language *)
+Lemma zone_nodes_spec ts p q s :
+  zone_nodes ts = Some (p, q) -> eval_terms ts s = val s p - val s q.
+Proof.
+  unfold zone_nodes. destruct ts as [|[c x] [|[d y] [|]]]; try discriminate.
+  - intros H. inversion H. simpl. lia.
+  - destruct (Z.eqb_spec c 1); [|destruct (Z.eqb_spec c (-1)); [|discriminate]];
+      intros H; inversion H; subst; cbn [eval_terms]; rewrite val_node; cbn [val]; lia.
+  - destruct (Z.eqb_spec c 1), (Z.eqb_spec d (-1)); cbn [andb];
+      try (intros H; inversion H; subst; cbn [eval_terms]; rewrite !val_node; lia);
+      destruct (Z.eqb_spec c (-1)), (Z.eqb_spec d 1); cbn [andb]; try discriminate;
+      intros H; inversion H; subst; cbn [eval_terms]; rewrite !val_node; lia.
+Qed.
+
+Lemma zone_edges_spec c es s :
+  zone_edges c = Some es -> (sat c s <-> Forall (edge_holds s) es).
+Proof.
+  unfold zone_edges, sat, eval_le.
+  destruct (zone_nodes (le_terms (lc_exp c))) as [[p q]|] eqn:E; [|discriminate].
+  rewrite (zone_nodes_spec _ _ _ s E).
+  destruct (lc_kind c); intros H; inversion H; subst; clear H.
+  - split.
+    + intros X. repeat constructor; simpl; lia.
+    + intros X. inversion X as [|? ? A B]; subst. inversion B as [|? ? A' B']; subst.
+      simpl in A, A'. lia.
+  - split.
+    + intros X. repeat constructor; simpl; lia.
+    + intros X. inversion X as [|? ? A B]; subst. simpl in A. lia.
+  - split.
+    + intros X. repeat constructor; simpl; lia.
+    + intros X. inversion X as [|? ? A B]; subst. simpl in A. lia.
+Qed.
+
+(* a constraint of the language over the variables of the matrix *)
+Definition z_ok (n : nat) (c : lincst) : Prop :=
+  exists es, zone_edges c = Some es /\ Forall (edge_in n) es.
+
+Theorem z_add_spec n c z :
+  z_ok n c -> zwf n z ->
+  zwf n (z_add n c z) /\ (forall s, gamma (z_add n c z) s <-> (gamma z s /\ sat c s)).
+Proof.
+  intros [es [E F]] W. unfold z_add. rewrite E.
+  destruct (add_edges_spec n es z W F) as [W1 G1]. split; auto.
+  intros s. rewrite G1. rewrite (zone_edges_spec c es s E). tauto.
+Qed.
+
+Theorem z_assume_spec n cs : forall z,
+  Forall (z_ok n) cs -> zwf n z ->
+  zwf n (z_assume n cs z) /\
+  (forall s, gamma (z_assume n cs z) s <-> (gamma z s /\ Forall (fun c => sat c s) cs)).
+Proof.
+  unfold z_assume. induction cs as [|c r IH]; intros z F W; simpl.
+  - split; auto. intros s. split; [intros; split; auto|tauto].
+  - inversion F; subst. destruct (z_add_spec n c z H1 W) as [W1 G1].
+    destruct (IH _ H2 W1) as [W2 G2]. split; auto.
+    intros s. rewrite G2, G1. split.
+    + intros [[A B] Cc]. split; auto.
+    + intros [A B]. inversion B; subst. tauto.
+Qed.
+
+(* entails answers yes exactly when every integer point satisfies the constraint *)
+Theorem z_entails_exact n c z :
+  zwf n z -> z_ok n c -> (z_entails c z = true <-> forall s, gamma z s -> sat c s).
+Proof.
+  intros W [es [E F]]. destruct z as [|m]; simpl.
+  - split; auto. intros _ s [].
+  - rewrite E. rewrite forallb_forall. split.
+    + intros H s G. apply (zone_edges_spec c es s E). apply Forall_forall.
+      intros [[a b] w] I. specialize (H _ I). simpl in H. apply wleb_spec in H.
+      simpl. pose proof (G a b) as G1. destruct (mget m a b) as [k|]; simpl in H; [|tauto].
+      specialize (G1 _ eq_refl). lia.
+    + intros H [[a b] w] I. apply wleb_spec.
+      rewrite Forall_forall in F. destruct (F _ I) as [Ha Hb].
+      destruct (mget m a b) as [k|] eqn:M; simpl.
+      * destruct (entry_attained n m a b k W Ha Hb M) as [s [G X]].
+        pose proof (proj1 (zone_edges_spec c es s E) (H s G)) as Y.
+        rewrite Forall_forall in Y. specialize (Y _ I). simpl in Y. lia.
+      * destruct (entry_unbounded n m a b (w + 1) W Ha Hb M) as [s [G X]].
+        pose proof (proj1 (zone_edges_spec c es s E) (H s G)) as Y.
+        rewrite Forall_forall in Y. specialize (Y _ I). simpl in Y. lia.
+Qed.
+
+(* at(v) is the tightest interval *)
+Theorem z_upper_exact n m v : mwf n m -> (node v < n)%nat -> (0 < n)%nat ->
+  match z_upper (ZM m) v with
+  | Some u => (forall s, gmat m s -> s v <= u) /\ exists s, gmat m s /\ s v = u
+  | None => forall K, exists s, gmat m s /\ s v >= K
+  end.
+Proof.
+  intros W Hv H0. simpl. destruct (mget m O (node v)) as [u|] eqn:E.
+  - split.
+    + intros s G. specialize (G _ _ _ E). rewrite val_node in G. simpl in G. lia.
+    + destruct (entry_attained n m O (node v) u W H0 Hv E) as [s [G X]].
+      exists s. split; auto. rewrite val_node in X. simpl in X. lia.
+  - intros K. destruct (entry_unbounded n m O (node v) K W H0 Hv E) as [s [G X]].
+    exists s. split; auto. rewrite val_node in X. simpl in X. lia.
+Qed.
+
+Theorem z_lower_exact n m v : mwf n m -> (node v < n)%nat -> (0 < n)%nat ->
+  match z_lower (ZM m) v with
+  | Some l => (forall s, gmat m s -> l <= s v) /\ exists s, gmat m s /\ s v = l
+  | None => forall K, exists s, gmat m s /\ s v <= K
+  end.
+Proof.
+  intros W Hv H0. simpl. destruct (mget m (node v) O) as [u|] eqn:E.
+  - split.
+    + intros s G. specialize (G _ _ _ E). rewrite val_node in G. simpl in G. lia.
+    + destruct (entry_attained n m (node v) O u W Hv H0 E) as [s [G X]].
+      exists s. split; auto. rewrite val_node in X. simpl in X. lia.
+  - intros K. destruct (entry_unbounded n m (node v) O (- K) W Hv H0 E) as [s [G X]].
+    exists s. split; auto. rewrite val_node in X. simpl in X. lia.
+Qed.
+
+(* ------------------------------------------------------------------ order, join *)
+(* the entries of a closed matrix are below those of any matrix that contains its points *)
+Lemma entry_le n a c : mwf n a -> support n (mget c) ->
+  (forall s, gmat a s -> gmat c s) -> forall i j, wle (mget a i j) (mget c i j).
+Proof.
+  intros W S H i j. destruct (mget c i j) as [k|] eqn:E; [|destruct (mget a i j); exact I].
+  assert (Hi : (i < n)%nat). { destruct (Nat.lt_ge_cases i n); auto. rewrite S in E by lia. discriminate. }
+  assert (Hj : (j < n)%nat). { destruct (Nat.lt_ge_cases j n); auto. rewrite S in E by lia. discriminate. }
+  destruct (mget a i j) as [ka|] eqn:A; simpl.
+  - destruct (entry_attained n a i j ka W Hi Hj A) as [s [G X]].
+    specialize (H s G _ _ _ E). lia.
+  - destruct (entry_unbounded n a i j (k + 1) W Hi Hj A) as [s [G X]].
+    specialize (H s G _ _ _ E). lia.
+Qed.
+
+Theorem z_leq_exact n a b : zwf n a -> zdim n b ->
+  (z_leq n a b = true <-> forall s, gamma a s -> gamma b s).
+Proof.
+  intros Wa Db. destruct a as [|x], b as [|y]; simpl.
+  - split; auto.
+  - split; auto. intros _ s [].
+  - split; [discriminate|]. intros H. destruct (mwf_inhabited n x Wa) as [s G]. destruct (H s G).
+  - rewrite forallb_forall. split.
+    + intros H s G i j k E.
+      assert (I : In (i, j) (pairs n)).
+      { apply in_pairs. destruct (Nat.lt_ge_cases i n), (Nat.lt_ge_cases j n); auto;
+          rewrite Db in E by lia; discriminate. }
+      specialize (H _ I). simpl in H. apply wleb_spec in H. rewrite E in H.
+      pose proof (G i j) as G1. destruct (mget x i j); simpl in H; [|tauto].
+      specialize (G1 _ eq_refl). lia.
+    + intros H [i j] _. simpl. apply wleb_spec. apply (entry_le n x y); auto.
+Qed.
+
+Lemma wmax_closed f g : closed f -> closed g -> closed (fun i j => wmax (f i j) (g i j)).
+Proof.
+  intros Cf Cg i j k. pose proof (Cf i j k). pose proof (Cg i j k).
+  revert H H0. generalize (f i j) (f i k) (f k j) (g i j) (g i k) (g k j). wt_crush.
+Qed.
+
+Theorem z_join_wf n a b : zwf n a -> zwf n b -> zwf n (z_join n a b).
+Proof.
+  destruct a as [|x], b as [|y]; simpl; auto.
+  intros [Sx [Dx Cx]] [Sy [Dy Cy]]. split; [apply tab_support|]. split.
+  - intros i Hi. rewrite mget_tab. pose proof Hi as Hi'. apply Nat.ltb_lt in Hi'. rewrite Hi'. simpl.
+    rewrite Dx, Dy; auto.
+  - apply closed_tab. apply wmax_closed; auto.
+Qed.
+
+Theorem z_join_upper_l n a b s : gamma a s -> gamma (z_join n a b) s.
+Proof.
+  destruct a as [|x], b as [|y]; simpl; auto; try tauto.
+  intros G i j k. rewrite mget_tab. destruct ((i <? n) && (j <? n))%nat; [|discriminate].
+  pose proof (G i j) as G1. destruct (mget x i j), (mget y i j); simpl; try discriminate.
+  intros H. inversion H. specialize (G1 _ eq_refl). lia.
+Qed.
+Theorem z_join_upper_r n a b s : gamma b s -> gamma (z_join n a b) s.
+Proof.
+  destruct a as [|x], b as [|y]; simpl; auto; try tauto.
+  intros G i j k. rewrite mget_tab. destruct ((i <? n) && (j <? n))%nat; [|discriminate].
+  pose proof (G i j) as G1. destruct (mget x i j), (mget y i j); simpl; try discriminate.
+  intros H. inversion H. specialize (G1 _ eq_refl). lia.
+Qed.
+
+(* the join is below every value of the dimension (closed or not) that is above both *)
+Theorem z_join_least n a b c : zwf n a -> zwf n b -> zdim n c ->
+  (forall s, gamma a s -> gamma c s) -> (forall s, gamma b s -> gamma c s) ->
+  forall s, gamma (z_join n a b) s -> gamma c s.
+Proof.
+  intros Wa Wb Dc Ha Hb s. destruct a as [|x], b as [|y]; simpl; auto; try tauto.
+  destruct c as [|z].
+  - destruct (mwf_inhabited n x Wa) as [s0 G0]. destruct (Ha s0 G0).
+  - intros G i j k E. simpl in *.
+    pose proof (entry_le n x z Wa Dc Ha i j) as L1. pose proof (entry_le n y z Wb Dc Hb i j) as L2.
+    rewrite E in L1, L2. pose proof (G i j) as G1. rewrite mget_tab in G1.
+    assert (Hij : ((i <? n) && (j <? n))%nat = true).
+    { destruct (Nat.ltb_spec i n), (Nat.ltb_spec j n); auto; rewrite Dc in E by lia; discriminate. }
+    rewrite Hij in G1. destruct (mget x i j), (mget y i j); simpl in *; try tauto.
+    specialize (G1 _ eq_refl). lia.
+Qed.
+
+(* ------------------------------------------------------------------ meet *)
+Lemma meet_fold n y : forall ps acc,
+  (forall p, In p ps -> (fst p < n /\ snd p < n)%nat) -> zwf n acc ->
+  let r := fold_left (fun acc p => match mget y (fst p) (snd p) with
+                                   | Some k => add_edge n acc (fst p, snd p, k)
+                                   | None => acc end) ps acc in
+  zwf n r /\
+  (forall s, gamma r s <-> (gamma acc s /\
+     forall p k, In p ps -> mget y (fst p) (snd p) = Some k -> val s (snd p) - val s (fst p) <= k)).
+Proof.
+  induction ps as [|p ps IH]; intros acc R W; simpl.
+  - split; auto. intros s. split; [intros; split; auto; intros ? ? []|tauto].
+  - destruct (mget y (fst p) (snd p)) as [k|] eqn:E.
+    + destruct (add_edge_spec n acc (fst p, snd p, k) W) as [W1 G1].
+      { simpl. apply R. left; auto. }
+      destruct (IH _ (fun q I => R q (or_intror I)) W1) as [W2 G2]. split; auto.
+      intros s. rewrite G2, G1. simpl. split.
+      * intros [[A B] Cc]. split; auto. intros q k' [<-|I] F; [|eauto]. rewrite E in F. inversion F; subst; auto.
+      * intros [A B]. split; [split; auto|]. intros q k' I F. apply (B q k'); auto.
+    + destruct (IH _ (fun q I => R q (or_intror I)) W) as [W2 G2]. split; auto.
+      intros s. rewrite G2. split.
+      * intros [A B]. split; auto. intros q k' [<-|I] F; [congruence|eauto].
+      * intros [A B]. split; auto.
+Qed.
+
+Theorem z_meet_spec n a b : zwf n a -> zwf n b ->
+  zwf n (z_meet n a b) /\ (forall s, gamma (z_meet n a b) s <-> (gamma a s /\ gamma b s)).
+Proof.
+  intros Wa Wb. destruct a as [|x], b as [|y]; simpl; try (split; [exact I|intros s; tauto]).
+  destruct (meet_fold n y (pairs n) (ZM x)) as [W G]; auto.
+  { intros [i j] I. apply in_pairs in I. auto. }
+  split; auto. intros s. rewrite G. simpl. split.
+  - intros [A B]. split; auto. intros i j k E.
+    assert (I : In (i, j) (pairs n)).
+    { apply in_pairs. destruct Wb as [Sb _].
+      destruct (Nat.lt_ge_cases i n), (Nat.lt_ge_cases j n); auto; rewrite Sb in E by lia; discriminate. }
+    apply (B (i, j) k I E).
+  - intros [A B]. split; auto.
+Qed.
+
+(* ------------------------------------------------------------------ forget *)
+Definition store_eq_off (vs : list var) (s s' : store) : Prop := forall k, ~ In k vs -> s' k = s k.
+
+Lemma val_upd s v x i : val (upd s v x) i = if Nat.eqb i (node v) then x else val s i.
+Proof.
+  destruct i; simpl.
+  - reflexivity.
+  - unfold upd, node. destruct (N.eqb_spec (N.of_nat i) v).
+    + subst. rewrite Nat2N.id, Nat.eqb_refl. reflexivity.
+    + destruct (Nat.eqb_spec i (N.to_nat v)); auto. subst. rewrite N2Nat.id in n. congruence.
+Qed.
+
+Definition forget_f (f : nat -> nat -> wt) (p : nat) (i j : nat) : wt :=
+  if Nat.eqb i j then f i j else if Nat.eqb i p || Nat.eqb j p then None else f i j.
+
+Lemma forget_closed f p : closed f -> closed (forget_f f p).
+Proof.
+  intros C i j k. unfold forget_f.
+  pose proof (C i j k) as H. pose proof (C i i k) as H1.
+  destruct (Nat.eqb_spec i j), (Nat.eqb_spec i k), (Nat.eqb_spec k j),
+           (Nat.eqb_spec i p), (Nat.eqb_spec j p), (Nat.eqb_spec k p);
+    subst; simpl; auto; try congruence;
+    try (destruct (f j j); exact I); try (destruct (f i k); exact I); try (destruct (f i j); exact I);
+    try (destruct (f p p); exact I); try (destruct (f k k); exact I).
+Qed.
+
+Theorem z_forget1_wf n z v : zwf n z -> zwf n (z_forget1 n z v).
+Proof.
+  unfold z_forget1, forget_m. destruct z as [|m]; simpl; auto. intros [S [D C]]. split; [apply tab_support|]. split.
+  - intros i Hi. rewrite mget_tab. pose proof Hi as Hi'. apply Nat.ltb_lt in Hi'. rewrite Hi'. simpl.
+    rewrite Nat.eqb_refl. auto.
+  - apply closed_tab. apply (forget_closed (mget m) (node v) C).
+Qed.
+
+Theorem z_forget1_exact n z v s' : zwf n z -> (node v < n)%nat ->
+  (gamma (z_forget1 n z v) s' <-> exists s, gamma z s /\ store_eq_off [v] s s').
+Proof.
+  intros W Hv. unfold z_forget1, forget_m. destruct z as [|m]; simpl.
+  - split; [tauto|]. intros [s [[] _]].
+  - destruct W as [S [D C]]. split.
+    + (* every point of the projection comes from a point of the value *)
+      intros G. set (p := node v).
+      set (L := filter (fun i => negb (Nat.eqb i p)) (seq 0 n)).
+      assert (NI : ~ In p L). { unfold L. rewrite filter_In. rewrite Nat.eqb_refl. simpl. intros [_ X]; discriminate. }
+      assert (SL : sat_on (mget m) L (val s')).
+      { intros i j k Ii Ij E. unfold L in Ii, Ij. rewrite filter_In in Ii, Ij.
+        destruct Ii as [Ii Ni], Ij as [Ij Nj]. apply in_seq in Ii, Ij.
+        apply (G i j k). rewrite mget_tab.
+        replace ((i <? n)%nat) with true by (symmetry; apply Nat.ltb_lt; lia).
+        replace ((j <? n)%nat) with true by (symmetry; apply Nat.ltb_lt; lia). simpl.
+        fold p. apply negb_true_iff in Ni, Nj. rewrite Ni, Nj. simpl.
+        destruct (Nat.eqb i j); auto. }
+      pose proof (extend (mget m) C (val s') p L NI (mwf_diag_nonneg n m (conj S (conj D C)) p) SL) as X.
+      exists (upd s' v (pick (mget m) (val s') p L)). split.
+      * intros i j k E. rewrite !val_upd. fold p.
+        destruct (Nat.lt_ge_cases i n), (Nat.lt_ge_cases j n); try (rewrite S in E by lia; discriminate).
+        apply (X i j k); auto.
+        -- destruct (Nat.eqb_spec i p); [left; auto|right]. unfold L. rewrite filter_In. split; [apply in_seq; lia|].
+           apply negb_true_iff. apply Nat.eqb_neq; auto.
+        -- destruct (Nat.eqb_spec j p); [left; auto|right]. unfold L. rewrite filter_In. split; [apply in_seq; lia|].
+           apply negb_true_iff. apply Nat.eqb_neq; auto.
+      * intros k Hk. unfold upd. destruct (N.eqb_spec k v); auto. subst. simpl in Hk. tauto.
+    + intros [s [G E]] i j k. rewrite mget_tab.
+      destruct ((i <? n) && (j <? n))%nat; [|discriminate].
+      assert (V : forall q, q <> node v -> val s' q = val s q).
+      { intros [|q] Hq; simpl; auto. apply E. simpl. intros [X|[]]. apply Hq. unfold node. rewrite X, Nat2N.id. auto. }
+      destruct (Nat.eqb_spec i j).
+      * subst. intros F. specialize (G _ _ _ F). lia.
+      * destruct (Nat.eqb_spec i (node v)), (Nat.eqb_spec j (node v)); simpl; try discriminate.
+        intros F. rewrite !V by auto. apply (G _ _ _ F).
+Qed.
+
+Theorem z_forget_wf n vs : forall z, zwf n z -> zwf n (z_forget n vs z).
+Proof.
+  unfold z_forget. induction vs as [|v r IH]; intros z W; simpl; auto.
+  apply IH. apply z_forget1_wf; auto.
+Qed.
+
+Theorem z_forget_exact n vs : forall z s', zwf n z -> Forall (fun v => (node v < n)%nat) vs ->
+  (gamma (z_forget n vs z) s' <-> exists s, gamma z s /\ store_eq_off vs s s').
+Proof.
+  unfold z_forget. induction vs as [|v r IH]; intros z s' W F; simpl.
+  - split.
+    + intros G. exists s'. split; auto. intros k _. auto.
+    + intros [s [G E]]. destruct z as [|m]; simpl in *; auto.
+      intros i j k X. assert (V : forall q, val s' q = val s q) by (intros [|q]; simpl; auto).
+      rewrite !V. eauto.
+  - inversion F; subst. rewrite (IH _ _ (z_forget1_wf n z v W) H2). split.
+    + intros [s1 [G1 E1]]. apply (z_forget1_exact n z v s1 W H1) in G1. destruct G1 as [s [G E]].
+      exists s. split; auto. intros k Hk. simpl in Hk. rewrite E1 by tauto. apply E. simpl. tauto.
+    + intros [s [G E]].
+      (* forget v first: s1 agrees with s except on v where it takes s' v *)
+      exists (upd s v (s' v)). split.
+      * apply (z_forget1_exact n z v _ W H1). exists s. split; auto.
+        intros k Hk. unfold upd. destruct (N.eqb_spec k v); auto. subst. simpl in Hk. tauto.
+      * intros k Hk. unfold upd. destruct (N.eqb_spec k v); [subst; auto|]. apply E. simpl.
+        intros [X|X]; [congruence|tauto].
+Qed.
+
+(* ------------------------------------------------------------------ top test *)
+Theorem z_is_top_exact n z : zwf n z -> (z_is_top n z = true <-> forall s, gamma z s).
+Proof.
+  intros W. destruct z as [|m]; simpl.
+  - split; [discriminate|]. intros H. destruct (H (fun _ => 0)).
+  - rewrite forallb_forall. split.
+    + intros H s i j k E.
+      destruct W as [S [D C]].
+      assert (I : In (i, j) (pairs n)).
+      { apply in_pairs. destruct (Nat.lt_ge_cases i n), (Nat.lt_ge_cases j n); auto; rewrite S in E by lia; discriminate. }
+      specialize (H _ I). simpl in H. rewrite E in H. rewrite orb_false_r in H.
+      apply Nat.eqb_eq in H. subst. apply in_pairs in I. rewrite D in E by tauto. inversion E. lia.
+    + intros H [i j] I. simpl. destruct (Nat.eqb_spec i j); auto. simpl.
+      pose proof (z_top_wf n) as Wt. simpl in Wt.
+      pose proof (entry_le n _ m Wt (proj1 W) (fun s _ => H s) i j) as L.
+      rewrite mget_tab in L. apply in_pairs in I. destruct I as [Hi Hj].
+      apply Nat.ltb_lt in Hi, Hj. rewrite Hi, Hj in L. simpl in L.
+      apply Nat.eqb_neq in n0. rewrite n0 in L. destruct (mget m i j); simpl in L; tauto.
+Qed.
+
+(* ------------------------------------------------------------------ assignments *)
+Definition store_eq (s s' : store) : Prop := forall k, s k = s' k.
+
+Lemma gamma_ext z s s' : store_eq s s' -> gamma z s -> gamma z s'.
+Proof.
+  intros E. destruct z as [|m]; simpl; auto. intros G i j k F.
+  assert (V : forall q, val s' q = val s q) by (intros [|q]; simpl; auto).
+  rewrite !V. eauto.
+Qed.
+
+Lemma shift_closed f (d : nat -> Z) :
+  closed f -> closed (fun i j => wadd (f i j) (Some (d j - d i))).
+Proof.
+  intros C i j k. pose proof (C i j k) as H. revert H.
+  generalize (f i j) (f i k) (f k j). wt_crush.
+Qed.
+
+Lemma shift_spec n m p k s : support n (mget m) ->
+  (gmat (shift_m n m p k) s <->
+   gfun (mget m) (fun i => if Nat.eqb i p then val s i - k else val s i)).
+Proof.
+  intros S. unfold shift_m. rewrite gmat_tab.
+  - unfold gfun. split; intros H i j w E.
+    + specialize (H i j (w + ((if Nat.eqb j p then k else 0) - (if Nat.eqb i p then k else 0)))).
+      rewrite E in H. simpl in H. specialize (H eq_refl).
+      destruct (Nat.eqb i p), (Nat.eqb j p); lia.
+    + destruct (mget m i j) as [w'|] eqn:F; simpl in E; inversion E; subst.
+      specialize (H i j w' F). destruct (Nat.eqb i p), (Nat.eqb j p); lia.
+  - intros i j H. rewrite S; auto.
+Qed.
+
+Definition za_ok (n : nat) (x : var) (e : linexp) : Prop :=
+  (node x < n)%nat /\ (0 < n)%nat /\
+  (le_terms e = [] \/ exists y, le_terms e = [(1, y)] /\ (node y < n)%nat).
+
+Theorem z_assign_wf n x e z : za_ok n x e -> zwf n z -> zwf n (z_assign n x e z).
+Proof.
+  intros [Hx [H0 F]] W. unfold z_assign. destruct F as [F|[y [F Hy]]]; rewrite F.
+  - apply add_edges_spec; [apply z_forget1_wf; auto|]. repeat constructor; simpl; auto.
+  - rewrite Z.eqb_refl. destruct (N.eqb_spec x y).
+    + destruct z as [|m]; simpl; auto. destruct W as [S [D C]].
+      split; [apply tab_support|]. split.
+      * intros i Hi. unfold shift_m. rewrite mget_tab. pose proof Hi as Hi'. apply Nat.ltb_lt in Hi'.
+        rewrite Hi'. simpl. rewrite D by auto. simpl. f_equal. lia.
+      * apply closed_tab. apply (shift_closed (mget m) (fun i => if Nat.eqb i (node x) then le_cst e else 0) C).
+    + apply add_edges_spec; [apply z_forget1_wf; auto|]. repeat constructor; simpl; auto.
+Qed.
+
+Lemma Forall_two {A} (P : A -> Prop) a b : Forall P [a; b] <-> (P a /\ P b).
+Proof.
+  split.
+  - intros H. inversion H as [|? ? X Y]; subst. inversion Y; subst. auto.
+  - intros [X Y]. repeat constructor; auto.
+Qed.
+Lemma edge_holds_0x s x w : edge_holds s (O, node x, w) <-> s x <= w.
+Proof. unfold edge_holds. rewrite val_node. cbn [val]. lia. Qed.
+Lemma edge_holds_x0 s x w : edge_holds s (node x, O, w) <-> - s x <= w.
+Proof. unfold edge_holds. rewrite val_node. cbn [val]. lia. Qed.
+Lemma edge_holds_xy s x y w : edge_holds s (node y, node x, w) <-> s x - s y <= w.
+Proof. unfold edge_holds. rewrite !val_node. lia. Qed.
+
+(* x := e is exact: the points of the result are the updates of the points of the value *)
+Theorem z_assign_exact n x e z s' : za_ok n x e -> zwf n z ->
+  (gamma (z_assign n x e z) s' <->
+   exists s, gamma z s /\ store_eq s' (upd s x (eval_le e s))).
+Proof.
+  intros [Hx [H0 F]] W. unfold z_assign, eval_le. destruct F as [F|[y [F Hy]]]; rewrite F.
+  - (* x := k *)
+    destruct (add_edges_spec n [(O, node x, le_cst e); (node x, O, - le_cst e)] (z_forget1 n z x)
+                (z_forget1_wf n z x W)) as [_ G].
+    { repeat constructor; simpl; auto. }
+    rewrite G. rewrite (z_forget1_exact n z x s' W Hx). cbn [eval_terms].
+    rewrite Forall_two, edge_holds_0x, edge_holds_x0. split.
+    + intros [[s [Gs E]] [A A']]. exists s. split; auto. intros k. unfold upd.
+      destruct (N.eqb_spec k x).
+      * subst. lia.
+      * apply E. simpl. intros [X|[]]; congruence.
+    + intros [s [Gs E]]. split.
+      * exists s. split; auto. intros k Hk. rewrite E. unfold upd.
+        destruct (N.eqb_spec k x); auto. subst. simpl in Hk. tauto.
+      * pose proof (E x) as Ex. rewrite upd_same in Ex. lia.
+  - rewrite Z.eqb_refl. cbn [eval_terms]. destruct (N.eqb_spec x y).
+    + (* x := x + k *)
+      subst y. destruct z as [|m]; cbn [gamma].
+      * split; [tauto|]. intros [s [[] _]].
+      * rewrite shift_spec by apply W. split.
+        -- intros G. exists (upd s' x (s' x - le_cst e)). split.
+           ++ intros i j k E. rewrite !val_upd. specialize (G i j k E). cbv beta in G.
+              destruct (Nat.eqb_spec i (node x)), (Nat.eqb_spec j (node x)); subst; rewrite ?val_node in G; lia.
+           ++ intros k. unfold upd. destruct (N.eqb_spec k x); subst; rewrite ?N.eqb_refl; lia.
+        -- intros [s [G E]] i j k Fm. specialize (G i j k Fm).
+           assert (V : forall q, q <> node x -> val s' q = val s q).
+           { intros [|q] Hq; cbn [val]; auto. rewrite E. unfold upd. destruct (N.eqb_spec (N.of_nat q) x); auto.
+             exfalso. apply Hq. unfold node. rewrite <- e0, Nat2N.id. auto. }
+           assert (Vx : val s' (node x) = val s (node x) + le_cst e).
+           { rewrite !val_node. rewrite E, upd_same. lia. }
+           destruct (Nat.eqb_spec i (node x)), (Nat.eqb_spec j (node x)); subst; rewrite ?Vx, ?V by auto; lia.
+    + (* x := y + k, y <> x *)
+      destruct (add_edges_spec n [(node y, node x, le_cst e); (node x, node y, - le_cst e)] (z_forget1 n z x)
+                  (z_forget1_wf n z x W)) as [_ G].
+      { repeat constructor; simpl; auto. }
+      rewrite G. rewrite (z_forget1_exact n z x s' W Hx).
+      rewrite Forall_two, !edge_holds_xy. split.
+      * intros [[s [Gs E]] [A A']]. exists s. split; auto. intros k. unfold upd.
+        destruct (N.eqb_spec k x).
+        -- subst. rewrite <- (E y) by (simpl; intros [X|[]]; congruence). lia.
+        -- apply E. simpl. intros [X|[]]; congruence.
+      * intros [s [Gs E]]. split.
+        -- exists s. split; auto. intros k Hk. rewrite E. unfold upd.
+           destruct (N.eqb_spec k x); auto. subst. simpl in Hk. tauto.
+        -- pose proof (E x) as Ex. rewrite upd_same in Ex.
+           pose proof (E y) as Ey. rewrite upd_other in Ey by congruence. lia.
 Qed.
